@@ -194,10 +194,10 @@ def compile(
     )
 
     global LAST_STATE
-    LAST_STATE = cstate
     pickled_state = None
     if cstate is not None:
         pickled_state = pickle.dumps(cstate, -1)
+    LAST_STATE = cstate
 
     return units, pickled_state
 
@@ -218,8 +218,9 @@ def compile_in_tx(
             cstate.set_root_user_schema(DBS[dbname].user_schema)
     units, cstate = COMPILER.compile_serialized_request_in_tx(
         cstate, *args, **kwargs)
+    pickled_state = pickle.dumps(cstate, -1)
     LAST_STATE = cstate
-    return units, pickle.dumps(cstate, -1)
+    return units, pickled_state
 
 
 def compile_notebook(
